@@ -135,8 +135,9 @@ Current(show)  == IF RepairedCode THEN Repaired(show) ELSE Code(show)
 ClausesOf(show, obs) == Clauses(m, Cfg(show), F, obs)
 KFClause == "C16.no_crash/cleanup_error_no_step"
 
-\* (S) composed with (P): the reporter's output satisfies every clause -- except the named defect family
-ClausesHold == ph = "case" => \A show \in BOOLEAN : \A v \in ClausesOf(show, Current(show)) : v[1] = KFClause
+\* (S) composed with (P): the reporter's output satisfies every clause.  (No exception: the cleanup_error_no_step
+\* defect is repaired in the code; KF_C16_cleanup_error_no_step only names the family in the verdict should it return.)
+ClausesHold == ph = "case" => \A show \in BOOLEAN : ClausesOf(show, Current(show)) = {}
 \* the clauses can be met: with the repaired _make_problem_description_for nothing at all fires
 RepairedHolds == ph = "case" => \A show \in BOOLEAN : ClausesOf(show, Repaired(show)) = {}
 \* the exception is exactly as wide as the defect: the reporter raises iff some listed scenario of the feature is
@@ -162,7 +163,10 @@ WalkIsDocOrder == ph = "case" => Walk(m, F, 1) = DocScenarios(m, F)
 
 RECURSIVE Hash(_,_)
 Hash(q, k) == IF k > Len(q) THEN 0 ELSE q[k].ix * (7 * k * k + 3) + Hash(q, k + 1)
-EmitThis == Weight(sh) <= EmitAllUpTo \/ (Hash(ds, 1) + 13 * Len(sh)) % EmitMod = 0
+\* always emitted (the driver always runs them with skipped scenarios hidden): two scenarios the second of which ends
+\* untested, and the dry-run combinations
+Forced == Weight(sh) = 2 /\ (ds[2].name = "untested" \/ Dry)
+EmitThis == Weight(sh) <= EmitAllUpTo \/ Forced \/ (Hash(ds, 1) + 13 * Len(sh)) % EmitMod = 0
 Pred(show) == LET o == Current(show) IN
    [crashed |-> o.crashed, exists |-> o.doc.exists, tests |-> o.doc.tests, failures |-> o.doc.failures, errors |-> o.doc.errors,
     skipped |-> o.doc.skipped, cases |-> o.doc.cases, clauses |-> {v[1] : v \in ClausesOf(show, o)}]
